@@ -622,8 +622,8 @@ i_mep i_mep::cse() const
 
         auto arity(a.sym->arity());
         for (decltype(arity) i(0); i < arity; ++i)
-          if (a.args[i] < b.args[i])
-            return true;
+          if (a.args[i] != b.args[i])
+            return a.args[i] < b.args[i];
       }
 
       return false;
